@@ -118,10 +118,11 @@ class Structure:
         """
         update_dic = deepcopy(param_dic)
         for newname, oldname in self.param_mapping.items():
-            if oldname in update_dic:
-                update_dic.pop(oldname)
+            update_dic.pop(oldname, None)
+            update_dic.pop(newname, None)
+        for newname, oldname in self.param_mapping.items():
             if newname in param_dic:
-                update_dic[oldname] = update_dic.pop(newname)
+                update_dic[oldname] = deepcopy(param_dic[newname])
         # print(self,param_dic,self.param_mapping,update_dic)
         self.param_dic = update_dic
         if self.model is not None:
